@@ -6,7 +6,7 @@ From Coq Require Import String.
 From Coq Require Import NArith ZArith List Bool.
 Import ListNotations.
 From PV Require Import Yanny.Bytes Yanny.BytesFacts Yanny.Types Yanny.Parse Yanny.Render
-  Yanny.TokenFacts Yanny.RowFacts Yanny.TypeFacts Yanny.DocFacts C01.Model C01.Proofs.
+  Yanny.TokenFacts Yanny.RowFacts Yanny.TypeFacts Yanny.DocFacts Yanny.RoundTrip C01.Model C01.Proofs.
 Open Scope N_scope.
 
 (* a protected string followed by any run of blanks and further text is read back as the string *)
@@ -77,3 +77,27 @@ Theorem C01_unsupported_codes :
     (map bs ["u1"; "u2"; "u4"; "u8"; "i1"; "b1"; "f2"; "f16"; "c8"; "c16"; "c32"; "O"; "M8[ns]"; "m8[ns]"]%string) = true.
 Proof. exact unsupported_codes. Qed.
 Print Assumptions C01_unsupported_codes.
+
+(* THE PROPERTY, for every document of the domain doc_ok (any number of tables, zero-row tables, enum
+   columns, scalar and array columns, header pairs): the writer produces a file, and reading that file --
+   through a text-mode read or a binary file object -- returns exactly the document's meaning sem d:
+   pairs in order with their text, the typedef texts, upper-cased table names in order, every column with
+   its declared type text / numpy kind / array length, every row in order with every cell.
+   Floats are carried as TEXT (numpy formatting and float() are oracles checked on every run by the harness). *)
+Theorem C01_file_roundtrip : forall d, doc_ok d = true ->
+  exists b p, render_checked d = Some b /\ sem d = Some p /\ parse b = Some p /\ parse_binary b = Some p.
+Proof. exact file_roundtrip. Qed.
+Print Assumptions C01_file_roundtrip.
+
+(* non-vacuity: a two-table document (one name a prefix of the other, a string with # and blanks, an
+   empty string, an array column, a zero-row table) lies in the domain, and the theorem's conclusion computes *)
+Definition example_doc : doc :=
+  mkdoc [bs "c"%string] [(bs "k"%string, bs "v w"%string)] []
+    [mktable (bs "FOO"%string) [mkcol (bs "x"%string) TInt None; mkcol (bs "s"%string) (TChar 5) (Some 2)]
+       [[Sc (SInt (-7)%Z); Ar [STok (bs "a #b"%string); STok []]]];
+     mktable (bs "foobar"%string) [mkcol (bs "foo"%string) TDouble None] []].
+Example C01_example_in_domain : doc_ok example_doc = true.
+Proof. vm_compute. reflexivity. Qed.
+Example C01_example_roundtrip :
+  match render_checked example_doc with Some b => parse b = sem example_doc | None => False end.
+Proof. vm_compute. reflexivity. Qed.
